@@ -123,7 +123,7 @@ fn profile(name: &str) -> RawCfg {
             sizes: vec![],
             at_sizes: vec![50],
             offs: vec![Off::Zero, Off::Mid],
-            kinds: kinds(&["write_at", "batch_write", "flush", "region_flush"]),
+            kinds: kinds(&["write_at", "batch_write", "remove", "flush", "region_flush"]),
             prefill: 2,
             prefill_bytes: 3000,
             ..base
@@ -396,7 +396,7 @@ fn crash_plan(property: &str, tier: &str) -> Vec<(&'static str, usize)> {
     match property {
         "C05" => {
             if quick {
-                vec![("crash2", 3), ("crash_fresh", 4), ("crash_inplace", 2)]
+                vec![("crash2", 3), ("crash_fresh", 4), ("crash_inplace", 3)]
             } else {
                 vec![("crash2", 5), ("crash3", 4), ("crash_fresh", 6), ("crash_edit", 4), ("crash_inplace", 5)]
             }
